@@ -1,3 +1,4 @@
+pub mod alignlaw;
 pub mod alloc;
 pub mod ctx;
 pub mod env;
